@@ -65,6 +65,37 @@ TraceLsp ==
 TraceNext == TraceSrc \/ TraceCli \/ TraceWasm \/ TraceLsp
 TraceSpec == TraceInit /\ [][TraceNext]_tvars
 
+(***************************************************************************)
+(* Monitor mode: one record per set of sources with all its observations;  *)
+(* TLC looks for a class that explains every one of them (the same         *)
+(* inference as TraceSpec, but each source is judged on its own, so one    *)
+(* rejected source does not hide the others).                              *)
+(*   {predicted, cli: [{base, config, existed, exit, changed, located}],   *)
+(*    wasm: "ok" | "error" | "none", lsp: "clean" | "diagnostics" | "none"} *)
+(***************************************************************************)
+ObsRec == ndJsonDeserialize(IOEnv.OBS)
+
+CliExplained(c, o) ==
+  LET fails == c # "ok" IN
+  /\ o.exit = (IF fails THEN 1 ELSE 0)
+  /\ o.changed = ~fails                 \* the target is new exactly on success, untouched otherwise
+  /\ fails => o.located
+
+Explains(c, r) ==
+  /\ (r.predicted = "" \/ r.predicted = c)
+  /\ \A j \in 1..Len(r.cli) : CliExplained(c, r.cli[j])
+  /\ r.wasm # "none" => (r.wasm = (IF c = "ok" THEN "ok" ELSE "error"))
+  /\ r.lsp # "none" => (r.lsp = (IF c = "ok" THEN "clean" ELSE "diagnostics"))
+
+ObsInit ==
+  /\ l \in 1..Len(ObsRec)
+  /\ cls \in Classes /\ hasBase = FALSE /\ viaConfig = FALSE /\ targetExisted = FALSE
+  /\ pc = "idle" /\ target = "none" /\ exit = -1 /\ located = FALSE /\ wasm = "none" /\ lsp = "none"
+ObsNext == UNCHANGED tvars
+
+\* evaluated once per (source, candidate class); a source is explained iff some class passes
+ObsJudge == Explains(cls, ObsRec[l]) => PrintT(<<"EXPLAINED", ToJson([l |-> l, cls |-> cls])>>)
+
 \* Totality monitor (C04): the recorded outcomes are outcomes the specification has at all -
 \* the CLI exits with 0 or 1, the playground answers, the server stays alive - without asking
 \* for agreement between the front ends (that is C13).
